@@ -153,6 +153,25 @@ def run(run):
                 run.undecided("R1", key, why, F.loc(f["body"]))
             else:
                 run.check("R1", key, v, "one warning must be generated for every recorded call (iteration over all records, unconditional) -- %s" % why, F.loc(f["body"]))
+        # CWE332: every configured (initializer, generator) pair is examined -- a filter is a condition, but an adaptor that
+        # ends the iteration early (take_while, take, ...) silently drops the later pairs
+        f332 = F.fn("check_cwe", mod="checkers::cwe_332")
+        from .lib import bindsrc as B332
+        gen_sites = [x for x in T.walk_deep(F, f332["body"], 1) if T.is_call(x, "generate_cwe_warning") or (T.is_call(x, "new") and "CweWarning" in (x.get("f") or ""))]
+        key = "cwe332|all-pairs-examined"
+        if not gen_sites:
+            run.undecided("R1", key, "no warning construction found in cwe_332::check_cwe", F.loc(f332["body"]))
+        else:
+            ctx = IC.contexts(F, f332, gen_sites[0])
+            roots = B332.bodies(F, f332)
+            pairs = any(y.get("k") == "Field" and y.get("fn") == "pairs" for e_ in ctx for src, how in B332.sources(F, roots, e_) for y in B332.walk_with_closures(F, src))
+            cut = [y["n"] for e_ in ctx for src, how in B332.sources(F, roots, e_) for y in T.walk(src) if T.is_call(y, ("take_while", "take", "skip", "skip_while", "step_by", "nth", "last", "first", "find", "map_while", "position"))]
+            own, _ch = IC.owner(F, f332, gen_sites[0])
+            exits = [y for y in T.walk(own["body"]) if y.get("k") in ("Break", "Return") and y.get("ds") not in ("ForLoop", "WhileLoop")]
+            if not pairs:
+                run.undecided("R1", key, "the warning is not generated inside an iteration over config.pairs", F.loc(f332["body"]))
+            else:
+                run.check("R1", key, not cut and not exits, "every configured pair must be examined; the iteration over the pairs is ended early by %s" % (cut or "break/return"), F.loc(gen_sites[0]))
         # CWE782: every sub handled, all calls of a sub passed on
         f = F.fn("check_cwe", mod="checkers::cwe_782")
         v782, why782 = iteration_of(f, lambda x: T.is_call(x, "handle_sub") or (x.get("k") == "FnRef" and (x.get("f") or "").endswith("::handle_sub")), "subs")
